@@ -19,7 +19,7 @@ BRIDGE = {
     "C05": ["reservedNames", "pyKeywords"],
     "C06": ["reservedNames", "fieldHeaders"],
     "C07": [],
-    "C08": [],
+    "C08": ["reservedNames"],
     "C09": [],
     "C10": [],
     "C11": ["templates", "adsTemplates", "templatesChars", "adsTemplatesChars", "optFlags", "filenameSlashes", "validFilename", "namingPattern",
@@ -47,7 +47,7 @@ BRIDGE_FUNCS = {
     "C10": ["sort_lines"],
     "C11": ["to_valid_filename", "to_valid_module_name"],
     "C12": ["to_snake_case", "to_valid_module_name", "fix_name_segment", "fix_field_path", "client_method_name"],
-    "C14": ["coerce_response_name"],
+    "C14": ["coerce_response_name", "client_method_name", "to_snake_case", "fix_whitespace"],
     "C15": ["to_snake_case", "make_private", "client_method_name"],
     "C16": ["make_private", "client_method_name"],
     "C17": ["fix_name_segment", "fix_field_path"],
